@@ -790,19 +790,34 @@ func c42RunReal(ev *eval.Evaler, src, caseDir, baseDir string) (obs c42Obs) {
 	inCh := make(chan any, 1)
 	inCh <- c42StdinValue
 	close(inCh)
-	p1, get1, err1 := eval.CapturePort()
-	p2, get2, err2 := eval.CapturePort()
-	if err1 != nil || err2 != nil {
-		obs.Err = fmt.Sprint(err1, err2)
+	// stdout and stderr of the evaluation: bytes go to a capture file, values
+	// into a channel large enough for everything a case can produce
+	var capF [2]*os.File
+	var capCh [2]chan any
+	for i := range capF {
+		f, err := os.OpenFile(filepath.Join(baseDir, fmt.Sprintf("capture%d", i+1)), os.O_RDWR|os.O_CREATE|os.O_TRUNC|os.O_APPEND, 0o644)
+		if err != nil {
+			obs.Err = err.Error()
+			return
+		}
+		defer f.Close()
+		capF[i], capCh[i] = f, make(chan any, 64)
+	}
+	get := func(i int) (vs []any, b []byte) {
+		close(capCh[i])
+		for v := range capCh[i] {
+			vs = append(vs, v)
+		}
+		b, _ = os.ReadFile(capF[i].Name())
 		return
 	}
-	ports := []*eval.Port{{File: stdin, Chan: inCh}, p1, p2}
+	ports := []*eval.Port{{File: stdin, Chan: inCh}, {File: capF[0], Chan: capCh[0]}, {File: capF[1], Chan: capCh[1]}}
 	var evalErr error
 	obs.Panic = vk.Try(func() {
 		evalErr = ev.Eval(parse.Source{Name: "c42", Code: src}, eval.EvalCfg{Ports: ports})
 	})
-	v1, b1 := get1()
-	v2, b2 := get2()
+	v1, b1 := get(0)
+	v2, b2 := get(1)
 	stdin.Close()
 	obs.OutB, obs.ErrB = string(b1), string(b2)
 	for _, v := range v1 {
@@ -880,7 +895,7 @@ func c42Spawn(id int) (*c42Worker, error) {
 	}
 	w := &c42Worker{in: cmdW, lines: make(chan string, 4), stderr: &bytes.Buffer{}}
 	w.cmd = exec.Command(self, "-test.run", "^TestVerifC42$", "-test.timeout", "0")
-	w.cmd.Env = append(os.Environ(), "VERIF_C42_WORKER=1", "VERIF_C42_DIR="+dir, "GOMAXPROCS=2", "GOTRACEBACK=all")
+	w.cmd.Env = append(os.Environ(), "VERIF_C42_WORKER=1", "VERIF_C42_DIR="+dir, "GOMAXPROCS=1", "GOTRACEBACK=all")
 	w.cmd.ExtraFiles = []*os.File{cmdR, resW}
 	w.cmd.Stderr = w.stderr
 	w.cmd.Stdout = w.stderr
